@@ -373,13 +373,21 @@ def main():
             results = run_kani(scratch, cfg, cdir, harnesses, logf, jobs)
 
         # ---- Verus route ----
-        if cfg.get("verus") and not undecided:
+        if cfg.get("verus") and not any(u["obligation"] == "weave" for u in undecided):
             import extract  # noqa: E402
             for recipe in cfg["verus"]:
                 if tier != "thorough" and recipe.get("tier", "quick") != "quick":
                     continue
                 vr = extract.run_recipe(recipe, cdir, scratch, logf)
                 verus_results.append(vr)
+
+        # ---- Route S (standalone extraction under Kani) ----
+        if cfg.get("standalone") and not any(u["obligation"] == "weave" for u in undecided):
+            import extract  # noqa: E402
+            for recipe in cfg["standalone"]:
+                sr = extract.run_standalone(recipe, cfg, cdir, scratch, logf, parse_result_file,
+                                            classify_failed, tier)
+                verus_results.append(sr)
 
         # ---- classify ----
         obligations = []
@@ -442,11 +450,12 @@ def main():
                     violations.append(({"name": ob["obligation"], "kind": "verus",
                                         "obligation": ob.get("statement", ""),
                                         "replay": ob.get("replay")}, {"failed": [], "_raw_tail": ob.get("verifier_output", "")},
-                                       [{"description": ob.get("verifier_output", "")[:600], "location": ob.get("where", "")}]))
+                                       (ob.get("failed_checks") or
+                                        [{"description": ob.get("verifier_output", "")[:600], "location": ob.get("where", "")}])))
                 elif ob["result"] == "undecided":
                     undecided.append({"obligation": ob["obligation"], "reason": ob.get("reason", "verus undecided")})
                 elif ob["result"] == "VACUOUS":
-                    undecided.append({"obligation": ob["obligation"], "reason": "verus vacuity guard verified"})
+                    undecided.append({"obligation": ob["obligation"], "reason": "vacuity guard verified"})
 
         # ---- violations: replay + report ----
         viol_out = []
@@ -491,6 +500,8 @@ def main():
             log(f"UNDECIDED property={prop} obligation={u['obligation']}: {u['reason']}")
 
         # ---- evidence ----
+        for o in obligations:
+            o.setdefault("checks", 0)
         proof_obs = [o for o in obligations if o["kind"] in ("contract", "lemma", "verus")]
         bounded_obs = [o for o in obligations if o["kind"] == "bounded"]
         canaries = [o for o in obligations if o["kind"] in ("canary", "verus-canary")]
